@@ -59,11 +59,11 @@ VEC_ACTS = {"dv": ["VNew", "VInit", "VDel", "VResize", "VAppend", "VRemoveAt", "
             "uv": ["VNew", "VInit", "VDel", "VResize", "VAppend", "VRemoveAt", "VExtend", "VSet", "VSetOor", "VGet", "VGetOor", "VHas", "VIndexOf", "VFill", "VSort"],
             "iv": ["VNew", "VInit", "VDel", "VAppend", "VRemoveAt", "VExtend", "VSet", "VSetOor", "VGet", "VGetOor", "VHas", "VFill"]}
 GROUP_PREFIX = {"sv": "Sv", "mx": "Mx", "tn": "Tn", "dl": "Dl"}
-MC_QUICK = [("dv", 3, [0, 1, 2], 6, 2), ("uv", 3, [0, 1, 2], 6, 2), ("iv", 3, [0, 1, 2], 6, 2), ("sv", 2, [0, 1, 2], 5, 2),
-            ("dl", 2, [0, 1, 2], 5, 2), ("mx", 2, [0, 1, 2], 3, 4), ("tn", 2, [0, 1], 3, 4)]
-MC_THOROUGH = [("dv", 4, [0, 1, 2], 9, 2), ("uv", 4, [0, 1, 2], 9, 2), ("iv", 4, [0, 1, 2], 9, 2), ("sv", 3, [0, 1, 2], 6, 2),
-               ("dl", 3, [0, 1, 2], 6, 2), ("mx", 2, [0, 1, 2], 6, 6), ("tn", 2, [0, 1, 2], 4, 6)]
-INVARIANTS = ["Shape", "TypeOK", "DeadIsEmpty", "KindsOff"]
+MC_QUICK = [("dv", 2, [0, 1, 2], 7, 2), ("uv", 2, [0, 1, 2], 7, 2), ("iv", 2, [0, 1, 2], 7, 2), ("sv", 2, [0, 1, 2], 6, 2),
+            ("dl", 2, [0, 1, 2], 6, 2), ("mx", 2, [0, 1, 2], 4, 4), ("tn", 2, [0, 1], 4, 4)]
+MC_THOROUGH = [("dv", 4, [0, 1, 2], 7, 3), ("uv", 4, [0, 1, 2], 7, 3), ("iv", 4, [0, 1, 2], 7, 3), ("sv", 3, [0, 1, 2], 6, 3),
+               ("dl", 3, [0, 1, 2], 7, 3), ("mx", 2, [0, 1, 2], 6, 8), ("tn", 2, [0, 1, 2], 5, 8)]
+INVARIANTS = ["Shape", "TypeOK", "DeadIsEmpty", "KindsOff", "DepthBound"]
 LAWS = ["GuardLaw", "FrameLaw", "OorLaw", "CopyLaw", "GrowthLaw", "ShrinkLaw"]
 
 
@@ -79,7 +79,7 @@ def model_check(ctx, rd):
         g, maxdim, vals, depth, workers = row
         cfg = tlc.write_cfg(os.path.join(rd, "MC_Containers_%s.cfg" % g), spec="Spec",
                             constants=dict(Pool='{"a", "b"}', MaxDim=maxdim, Vals=set(vals), Kinds=_kinds_cfg([g]), Depth=depth),
-                            invariants=INVARIANTS, properties=LAWS, constraints=["DepthBound"], view="View", deadlock=False)
+                            invariants=INVARIANTS, properties=LAWS, view="View", deadlock=False)
         return tlc.run("Containers", cfg, workers=min(workers, JOBS), timeout=1700, xmx="6g")
 
     with ThreadPoolExecutor(max(1, min(len(table), JOBS // 2))) as ex:
@@ -91,8 +91,8 @@ def model_check(ctx, rd):
         if not r.ok:
             # a counterexample of the model alone is never reported as a violation of the code (DESIGN section 4)
             raise InfraError("Containers.tla (%s): %s fails in the model itself:\n%s" % (g, r.violation, r.trace_text[:2500]))
-        if r.depth != depth + 1 and r.distinct > 0 and r.depth < depth + 1:
-            ctx.note("model %s: state space closed at depth %d (< bound %d): exhaustive without the bound" % (g, r.depth - 1, depth))
+        if r.depth != depth + 1:
+            raise InfraError("model %s: search depth %d, expected %d calls + 1" % (g, r.depth, depth))
         must = VEC_ACTS[g] if g in VEC_ACTS else [a for a in r.coverage if a.startswith(GROUP_PREFIX[g])]
         if not must:
             raise InfraError("no coverage lines for group %s" % g)
@@ -130,7 +130,7 @@ def generate(ctx, rd):
     def one(arg):
         i, (kinds, num, maxdim) = arg
         cfg = tlc.write_cfg(os.path.join(rd, "GEN_Containers_%d.cfg" % i), spec="GenSpec",
-                            constants=dict(Pool='{"a", "b", "c", "d"}', MaxDim=maxdim, Vals={0, 1, 2, 3}, Kinds=_kinds_cfg(kinds), Depth=0),
+                            constants=dict(Pool='{"a", "b", "c", "d"}', MaxDim=maxdim, Vals={0, 1, 2, 3}, Kinds=_kinds_cfg(kinds), Depth=40),
                             constraints=["Emit"], deadlock=False)
         r = tlc.run("Containers", cfg, workers=1, timeout=1500, simulate="num=%d" % num, depth=40, seed=(ctx.seed + 7919 * i) & 0x7FFFFFFF, xmx="3g")
         hs = split_histories(r.emits)
